@@ -493,6 +493,108 @@ fn run_early(mode: Mode, cached_actions: usize, live_actions: usize, delay_ms: u
 }
 
 // -------------------------------------------------------------------------------------------------
+// C15: the hand-over itself, while a peer keeps sending
+
+/// a peer sends numbered messages every 3 ms from before the listener call until `AFTER_MS` after it;
+/// the listener call must take the poller over while that traffic lasts (the caching thread looks at its
+/// stop flag after every poll), so the first cached event reaches the callback long before the traffic
+/// ends; all messages arrive, in order
+fn run_early_busy(mode: Mode, udp: bool) -> (String, String, String, String) {
+    const BEFORE_MS: u64 = 150;
+    const AFTER_MS: u64 = 900;
+    let (handler, listener) = node::split::<u64>();
+    let transport = if udp { Transport::Udp } else { Transport::FramedTcp };
+    let (_l, addr) = handler.network().listen(transport, "127.0.0.1:0").unwrap();
+    let observed: Arc<Mutex<Vec<(u32, Instant)>>> = Arc::new(Mutex::new(vec![]));
+    let stop_sending = Arc::new(std::sync::atomic::AtomicBool::new(false));
+    let stop2 = stop_sending.clone();
+    let sender = std::thread::spawn(move || {
+        let mut n = 0u32;
+        if udp {
+            let s = std::net::UdpSocket::bind("127.0.0.1:0").unwrap();
+            while !stop2.load(std::sync::atomic::Ordering::SeqCst) {
+                let _ = s.send_to(&n.to_le_bytes(), addr);
+                n += 1;
+                std::thread::sleep(Duration::from_millis(3));
+            }
+        }
+        else {
+            let mut s = TcpStream::connect(addr).unwrap();
+            s.set_nodelay(true).ok();
+            while !stop2.load(std::sync::atomic::Ordering::SeqCst) {
+                let _ = s.write_all(&framed(&n.to_le_bytes()));
+                n += 1;
+                std::thread::sleep(Duration::from_millis(3));
+            }
+            // keep the connection open until everything was read
+            std::thread::sleep(Duration::from_millis(400));
+        }
+        (n, Instant::now())
+    });
+    std::thread::sleep(Duration::from_millis(BEFORE_MS));
+    let obs2 = observed.clone();
+    let called = Instant::now();
+    // the traffic ends AFTER_MS after the call, whatever the call does in the meantime
+    let stop3 = stop_sending.clone();
+    let timer = std::thread::spawn(move || {
+        std::thread::sleep(Duration::from_millis(AFTER_MS));
+        stop3.store(true, std::sync::atomic::Ordering::SeqCst);
+        Instant::now()
+    });
+    let running = start(mode, &handler, listener, move |e| {
+        if let Ev::Message(_, data) = e {
+            if data.len() == 4 {
+                obs2.lock().unwrap().push((u32::from_le_bytes([data[0], data[1], data[2], data[3]]), Instant::now()));
+            }
+        }
+    });
+    let traffic_end = timer.join().unwrap();
+    let (sent, _) = {
+        // the Tcp sender lingers; its count is final once the flag is set
+        let deadline = Instant::now() + Duration::from_secs(3);
+        loop {
+            if sender.is_finished() || Instant::now() > deadline {
+                break
+            }
+            if observed.lock().unwrap().len() > 0 && !udp {
+                // wait for the reads to catch up, then go on
+            }
+            std::thread::sleep(Duration::from_millis(5));
+        }
+        sender.join().unwrap()
+    };
+    let deadline = Instant::now() + Duration::from_secs(3);
+    while (observed.lock().unwrap().len() as u32) < sent && Instant::now() < deadline {
+        std::thread::sleep(Duration::from_millis(5));
+    }
+    handler.stop();
+    let returned = finish(running, Duration::from_secs(3));
+    let obs = observed.lock().unwrap().clone();
+    let numbers: Vec<u32> = obs.iter().map(|(n, _)| *n).collect();
+    let order_ok = numbers == (0..sent).collect::<Vec<u32>>();
+    let first = obs.first().map(|(_, t)| *t);
+    let timely = first.map_or(false, |t| t < traffic_end);
+    let case = format!("node earlybusy {} {}", mode.name(), if udp { "u" } else { "f" });
+    let imp = format!("order={} takeover={}", if order_ok { "ok" } else { "broken" }, if timely { "during-traffic" } else { "only-after-traffic" });
+    let oracle = if order_ok && timely && returned.is_some() {
+        "ok".to_string()
+    }
+    else if !timely {
+        format!(
+            "FAIL nothing reached the callback while the peer kept sending: first delivery {:?} after the listener call, traffic went on for {:?} after it ({} messages sent, {} delivered in the end)",
+            first.map(|t| t.duration_since(called)),
+            traffic_end.duration_since(called),
+            sent,
+            obs.len()
+        )
+    }
+    else {
+        format!("FAIL delivered {:?}… of 0..{} (listener returned: {})", &numbers[..numbers.len().min(8)], sent, returned.is_some())
+    };
+    (case, imp, oracle, format!("early,busy,{},{}", mode.name(), if udp { "udp" } else { "framed" }))
+}
+
+// -------------------------------------------------------------------------------------------------
 // C11 through the node layer: a raw Tcp stream whose first chunks arrive before the listener call
 
 /// a raw peer sends buffers (sizes around the 65535-byte read buffer) with pauses; the node connects
@@ -624,6 +726,12 @@ fn main() {
                     emit(&mut out, &c, &i, &o, &t);
                 }
             }
+            for m in modes {
+                for udp in [true, false] {
+                    let (c, i, o, t) = run_early_busy(m, udp);
+                    emit(&mut out, &c, &i, &o, &t);
+                }
+            }
         }
         "run" => {
             let mut rng = Rng::new(7);
@@ -634,6 +742,7 @@ fn main() {
                     ["node", "serial", m, d] => run_serial(parse_mode(m), d.parse().unwrap_or(0)),
                     ["node", "stop", m, sc, p] => run_stop(parse_mode(m), sc, p.parse().unwrap_or(0)),
                     ["node", "tcp", m, late] => run_tcp_late(parse_mode(m), late.parse().unwrap_or(0)),
+                    ["node", "earlybusy", m, k] => run_early_busy(parse_mode(m), *k == "u"),
                     ["node", "early", m, c, l] => run_early(parse_mode(m), c.parse().unwrap_or(0), l.parse().unwrap_or(0), 20, &mut rng),
                     _ => (line.clone(), "bad-case".into(), "ok".into(), String::new()),
                 };
